@@ -94,6 +94,7 @@ pub struct Stats {
     pub samples: Vec<serde_json::Value>,
     pub max_slots_seen: usize,
     pub hangs: u64,
+    pub prefix_failed: bool,
 }
 
 impl Stats {
@@ -561,8 +562,12 @@ fn run_bundle<P: Payload + Clone>(ctx: &Ctx, b: &Bundle, prefix: &Option<Vec<Cal
     if let Some(pre) = prefix {
         for c in pre {
             let d = sim.apply(c);
-            if d.class != "Ok" {
-                return; // the prefix itself is checked as a bundle of its own
+            let want_slot = if c.op == "new" { c.a } else if c.op == "append_value" { c.b } else { 0 };
+            if d.class != "Ok" || (want_slot != 0 && d.new != want_slot) {
+                // the earlier history cannot be reproduced as written (e.g. another allocation order):
+                // nothing to compare for this bundle; the prefix itself is checked as a bundle of its own
+                st.prefix_failed = true;
+                return;
             }
         }
         let d = sim.apply(&Call { op: "clear".into(), a: 0, b: 0, v: 0, checked: false, r: vec![] });
@@ -836,6 +841,11 @@ fn process<P: Payload + Clone>(ctx: &Ctx, line: &str, prev_path: &Option<Vec<Cal
         st.check("C13", cleared.cases + 1);
         st.cases += cleared.cases;
         st.nontrivial_cases += cleared.nontrivial_cases;
+        if cleared.prefix_failed || fresh.abandoned_policy > 0 {
+            // no verdict: the comparison "after clear() like new" needs a reproducible prefix and path
+            st.abandoned_policy += 1;
+            return Some(b.path);
+        }
         let differs = cleared.abandoned_policy != fresh.abandoned_policy;
         if differs {
             st.violation(ctx.opts.keep, Finding { prop: "C13".into(), kind: "after-clear-slot-numbering".into(), detail: "after clear() the allocation order differs from a new arena".into(), case: case_json(&b, &prefix, None, json!(null), json!(null)) });
